@@ -839,7 +839,11 @@ LEVEL_TEXT = ("Proved in Lean 4 over an arbitrary field, about definitions REGEN
               "Matrix4::axisAngle() are regenerated too; proved: fromAxisAngleU of a unit axis is a unit quaternion, its matrix is "
               "Rodrigues' matrix I + sin t [u]x + (1-cos t)[u]x^2, Matrix4::rotate(axis,angle) is that matrix about axis/|axis|, and for "
               "every unit quaternion q fromAxisAngle(q.axisAngle()) = +-q (angle-0 branch included) so rotate(M.axisAngle()) = M; "
-              "matrix(rotation(M)) = M for every M in the image of matrix() (rotation_matrix_partial). These code paths are also "
+              "matrix(rotation(M)) = M for EVERY proper rotation matrix M (M*Mt = I, det M = 1; rotation_matrix_full_holds, all four "
+              "branches, each under its own guard; rotation_guards_exhaustive: for an arbitrary matrix the guards are exhaustive and the "
+              "radicand of the branch taken is >= 1; rotation_branch_sound_so3: each branch alone over any field with 2 != 0); "
+              "(AB)t = Bt At, inverse(At) = inverse(A)t, inverse(AB) = inverse(B) inverse(A) for Matrix4 and Matrix3 with the code's own "
+              "operations, M*p - M*q = M%(p-q) (points vs vectors, point_vector_transform). These code paths are also "
               "executed exactly over the prime field with stand-ins for cos/sin/acos/atan2 (rational parametrisation of the unit circle) and compared with the model and with "
               "Rodrigues / textbook axis-rotation references. "
               "Proved about the hand-written transcription of solve_/solve/Matrix::inverse (tied to the code by the correspondence "
@@ -858,8 +862,9 @@ LEVEL_NOTE = ("Trusted: Lean kernel; the expression translator tools/props/c20_t
               "without it a right-hand side nearly orthogonal to the columns of A raised a false alarm, corpus/C20/lstsq_orthogonal_rhs.ops). "
               "NOT theorems (numeric validation by the correspondence harness only, because Lean's kernel has no IEEE "
               "floats): all float/double residual bounds; "
-              "rotation_matrix_full (matrix(rotation M) = M for EVERY proper rotation matrix M) is only stated: it needs surjectivity of "
-              "q -> matrix q onto SO(3); proved is rotation_matrix_partial (M in the image). The axis-angle and Euler theorems assume "
+              "rotation_matrix_full is now proved (rotation_matrix_full_holds; AslProofs/RotSO3.lean: the 24 rank-one minors of the "
+              "4x4 matrix of radicands and entry sums/differences are constant-coefficient combinations of the SO(3) relations). "
+              "The axis-angle and Euler theorems assume "
               "TrigOK/TrigAA/TrigDouble/CmpStd for cos/sin/atan2/sqrt (proved for the real functions in examples); "
               "the behaviour of eulerAngles() when the cosine (sine) c of the middle angle is in (0, lim] (there the last angle is set to 0, "
               "an approximation; the bound error <= O(c) <= O(16 eps) is NOT proved, only validated numerically); numeric tolerance: 64*eps for every rotation conversion "
